@@ -48,6 +48,7 @@ type fnSpec struct {
 	errChan      bool // errors are reported by sending on errCh (recorded as effects), not returned
 	loop         bool // translate one iteration of the receive loop inside the function (see translate)
 	uses         map[string]bool // translated functions this one calls (filled while translating)
+	assertFields map[string]string // "GetF().(*T)" -> field of the receiver's representation that says whether the oneof F holds member T
 	deleteEff    string            // `delete(m, k)` on a state map is also recorded as this effect (constructor:constant)
 	tbFatal      bool              // the function reports by t.Fatalf; its translation returns whether it passed
 	valueLoops   bool              // loops return Sum (function result) (loop state) instead of taking the code after them as their base case (needed when a loop is nested in another and falls back into it)
@@ -829,6 +830,20 @@ var ribSmallSpecs = []fnSpec{
 }
 
 var chkSpecs = []fnSpec{
+	{
+		file: "chk/chk.go", goName: "GetResponseHasEntries", callAs: "GetResponseHasEntries§", leanName: "getResponseHasEntries", tbFatal: true,
+		params: []param{
+			{goName: "t", goType: "testing.TB", lean: "t", kd: kStr, skip: true},
+			{goName: "getres", goType: "*spb.GetResponse", lean: "getres", kd: kPtr("GetResponseG")},
+			// each want is represented by what its EntryProto() returns (nil = it fails)
+			{goName: "wants", goType: "...fluent.GRIBIEntry", lean: "wants", kd: kind{k: "list", s: "GAFTEntry", optElems: true}},
+		},
+		goRets: "", rets: []string{"bool"},
+		oracleParams: []param{{goName: "§protoErr", lean: "protoErr", kd: kind{k: "statusval"}}},
+		oracles:      map[string]oracle{"*.EntryProto": {results: []string{"@self", "§protoErr"}, errOf: true}},
+		typeMap:      map[string]string{"spb.AFTEntry": "GAFTEntry"},
+		assertFields: map[string]string{"GetLabel().(*aftpb.Afts_LabelEntryKey_LabelUint64)": "LabelIsUint64"},
+	},
 	{
 		file: "chk/chk.go", goName: "HasResult", callAs: "HasResult§", leanName: "hasResult", tbFatal: true,
 		params: []param{
